@@ -18,6 +18,12 @@
 //	MediaBox, CropBox, Rotate, resources, and the same sequence of non-signature annotations;
 //	the same non-signature terminal fields (full name, type, value), compared input vs output.
 //
+// Enumerated family (hier.go): field hierarchies of depth 3, 4 and 5 whose terminal signature
+// field takes /FT /Sig from itself, its parent, grandparent, ... (every /FT assignment over
+// {none, Sig, Tx} per level whose effective type at the terminal field is Sig: 13 + 40 + 121),
+// x widget merged | one /Kids widget | two /Kids widgets on two pages, x every non-terminal level
+// also holding an ordinary text field | a further signature field | nothing.
+//
 // (/SigFlags and /DSS are not named by the property: counted, not judged.)
 // On a document without signatures: the error is api.ErrNoSignatures and the sandbox directory
 // is byte-for-byte what it was (no output, no temporary left, input untouched).
@@ -45,7 +51,8 @@ type input struct {
 	Name   string
 	Shape  string // key component: what kind of document
 	Bytes  []byte
-	Signed bool // has signatures (fields or /Perms)
+	Signed bool   // has signatures (fields or /Perms)
+	Key    string // violation-key component if it is not the shape itself (enumerated families)
 }
 
 func main() { vk.Run("C29", "exploration", run) }
@@ -87,6 +94,22 @@ func run(t *vk.T) {
 			ins = append(ins, input{Name: fmt.Sprintf("shape/%s/xrefstream=%v", sh, xs), Shape: "shape/" + sh, Bytes: b, Signed: true})
 		}
 	}
+	// enumerated family of field hierarchies (hier.go): every member; the cross-reference form
+	// alternates in the quick tier and is the full product in the thorough tier
+	hs := hierSpecs()
+	for i, h := range hs {
+		for _, xs := range []bool{false, true} {
+			if t.Pick(1, 2) == 1 && xs != (i%2 == 1) {
+				continue
+			}
+			b, err := buildHier(h, xs)
+			if err != nil {
+				t.Broken("hierarchy %s: %v", h.name(), err)
+			}
+			ins = append(ins, input{Name: fmt.Sprintf("%s/xrefstream=%v", h.name(), xs), Shape: h.name(), Bytes: b, Signed: true, Key: h.class()})
+		}
+	}
+	t.Count("hierarchy_family_members", int64(len(hs)))
 	pki, err := sigkit.NewPKI(sigkit.PKIOptions{}, now)
 	if err != nil {
 		t.Broken("pki: %v", err)
@@ -219,12 +242,12 @@ func runCase(t *vk.T, in input, inPlace bool, k int) {
 	if err != nil {
 		if errors.Is(err, api.ErrNoSignatures) {
 			t.Eval(in.Shape + "/" + mode)
-			t.Violate("shape="+shapeKey(in.Shape)+"/class=signatures-not-seen",
+			t.Violate("shape="+in.key()+"/class=signatures-not-seen",
 				fmt.Sprintf("%s: input has %d signature dictionaries, %d signature fields, %d signature widgets, /Perms=%v, yet RemoveSignaturesFile says: %v", in.Name, fin.sigDicts, fin.sigFields, fin.sigWidgets, fin.perms, err), rc)
 			return
 		}
 		// pdfcpu refuses the document (validation): nothing to judge, but nothing may be left behind
-		t.Inconclusive("pdfcpu-rejects-input/" + shapeKey(in.Shape))
+		t.Inconclusive("pdfcpu-rejects-input/" + in.key())
 		t.Count("rejected: "+clip(err.Error(), 90), 1)
 		if d := treeDiff(before, after); d != "" {
 			t.Violate("failed-removal/mode="+mode+"/class=tree-changed", fmt.Sprintf("%s: failed removal (%v) changed the sandbox: %s", in.Name, err, d), rc)
@@ -252,11 +275,11 @@ func runCase(t *vk.T, in input, inPlace bool, k int) {
 	}
 	dout, oerr := pdfstrict.Open(ob, pdfstrict.Options{})
 	if oerr != nil {
-		t.Violate("shape="+shapeKey(in.Shape)+"/class=output-unreadable", fmt.Sprintf("%s: output unreadable by the independent reader: %v", in.Name, oerr), rc)
+		t.Violate("shape="+in.key()+"/class=output-unreadable", fmt.Sprintf("%s: output unreadable by the independent reader: %v", in.Name, oerr), rc)
 		return
 	}
 	fout := factsOf(dout)
-	sk := shapeKey(in.Shape)
+	sk := in.key()
 	t.Count("removed_sig_dicts", int64(fin.sigDicts))
 	t.Count("removed_sig_fields", int64(fin.sigFields))
 	t.Count("removed_sig_widgets", int64(fin.sigWidgets))
@@ -328,11 +351,14 @@ func runCase(t *vk.T, in input, inPlace bool, k int) {
 	}
 }
 
-func shapeKey(s string) string {
-	if strings.HasPrefix(s, "pdfgen/") {
+func (in input) key() string {
+	if in.Key != "" {
+		return in.Key
+	}
+	if strings.HasPrefix(in.Shape, "pdfgen/") {
 		return "pdfgen"
 	}
-	return s
+	return in.Shape
 }
 
 func clip(s string, n int) string {
@@ -582,39 +608,88 @@ func isSigWidget(d *pdfstrict.Doc, ref pdfstrict.Object, ad pdfstrict.Dict, sigF
 
 var shapeNames = []string{"merged", "widget-kid", "two-widget-kids-two-pages", "nested-two-levels", "ft-inherited", "unsigned-field", "next-to-plain-group", "sig-on-last-page-only"}
 
-func buildShape(kind string, xrefStream bool) ([]byte, error) {
-	doc := pdfgen.NewDoc()
-	pagesRef, catRef := doc.Alloc(), doc.Alloc()
-	font := doc.Add(pdfgen.D("Type", pdfgen.Name("Font"), "Subtype", pdfgen.Name("Type1"), "BaseFont", pdfgen.Name("Helvetica"), "Encoding", pdfgen.Name("WinAnsiEncoding")))
-	const nPages = 3
-	var pageRefs []pdfgen.Ref
-	annots := make([]pdfgen.Array, nPages)
-	var pageDicts []pdfgen.Dict
-	for i := 0; i < nPages; i++ {
-		cs := doc.Add(&pdfgen.Stream{Dict: pdfgen.Dict{}, Data: []byte(fmt.Sprintf("BT /F1 12 Tf 40 700 Td (shape %s page %d) Tj ET\n", kind, i+1))})
+const shapePages = 3
+
+// shapeDoc is the scaffold all hand-made documents share: three pages with content, an ordinary
+// annotation and an ordinary text field on page 1, an AcroForm with /SigFlags, /DA and /DR.
+type shapeDoc struct {
+	doc              *pdfgen.Doc
+	pagesRef, catRef pdfgen.Ref
+	font             pdfgen.Ref
+	pageRefs         []pdfgen.Ref
+	pageDicts        []pdfgen.Dict
+	annots           []pdfgen.Array
+	fields           pdfgen.Array
+}
+
+func newShapeDoc(label string) *shapeDoc {
+	s := &shapeDoc{doc: pdfgen.NewDoc()}
+	doc := s.doc
+	s.pagesRef, s.catRef = doc.Alloc(), doc.Alloc()
+	s.font = doc.Add(pdfgen.D("Type", pdfgen.Name("Font"), "Subtype", pdfgen.Name("Type1"), "BaseFont", pdfgen.Name("Helvetica"), "Encoding", pdfgen.Name("WinAnsiEncoding")))
+	s.annots = make([]pdfgen.Array, shapePages)
+	for i := 0; i < shapePages; i++ {
+		cs := doc.Add(&pdfgen.Stream{Dict: pdfgen.Dict{}, Data: []byte(fmt.Sprintf("BT /F1 12 Tf 40 700 Td (shape %s page %d) Tj ET\n", label, i+1))})
 		r := doc.Alloc()
-		pageRefs = append(pageRefs, r)
-		pageDicts = append(pageDicts, pdfgen.D("Type", pdfgen.Name("Page"), "Parent", pagesRef, "MediaBox", pdfgen.Rect(0, 0, float64(500+i), 800),
-			"Resources", pdfgen.D("Font", pdfgen.D("F1", font)), "Contents", cs))
-	}
-	sigDict := func() pdfgen.Ref {
-		return doc.Add(pdfgen.D("Type", pdfgen.Name("Sig"), "Filter", pdfgen.Name("Adobe.PPKLite"), "SubFilter", pdfgen.Name("adbe.pkcs7.detached"),
-			"ByteRange", pdfgen.A(0, 100, 300, 50), "Contents", pdfgen.HexString(make([]byte, 99)), "Name", pdfgen.String("verif")))
-	}
-	widget := func(page int, extra ...any) pdfgen.Dict {
-		d := pdfgen.D("Type", pdfgen.Name("Annot"), "Subtype", pdfgen.Name("Widget"), "Rect", pdfgen.Rect(50, 50, 150, 80), "P", pageRefs[page], "F", pdfgen.Int(4))
-		for i := 0; i+1 < len(extra); i += 2 {
-			d.Set(pdfgen.Name(extra[i].(string)), pdfgen.Obj(extra[i+1]))
-		}
-		return d
+		s.pageRefs = append(s.pageRefs, r)
+		s.pageDicts = append(s.pageDicts, pdfgen.D("Type", pdfgen.Name("Page"), "Parent", s.pagesRef, "MediaBox", pdfgen.Rect(0, 0, float64(500+i), 800),
+			"Resources", pdfgen.D("Font", pdfgen.D("F1", s.font)), "Contents", cs))
 	}
 	// an ordinary annotation and an ordinary text field on page 1, always
 	link := doc.Add(pdfgen.D("Type", pdfgen.Name("Annot"), "Subtype", pdfgen.Name("Text"), "Rect", pdfgen.Rect(10, 10, 30, 30), "Contents", pdfgen.String("plain note")))
-	annots[0] = append(annots[0], link)
+	s.annots[0] = append(s.annots[0], link)
 	txt := doc.Alloc()
-	doc.Put(txt, widget(0, "FT", pdfgen.Name("Tx"), "T", pdfgen.String("plain"), "V", pdfgen.String("keep me"), "DA", pdfgen.String("/F1 10 Tf 0 g")))
-	annots[0] = append(annots[0], txt)
-	fields := pdfgen.Array{txt}
+	doc.Put(txt, s.widget(0, "FT", pdfgen.Name("Tx"), "T", pdfgen.String("plain"), "V", pdfgen.String("keep me"), "DA", pdfgen.String("/F1 10 Tf 0 g")))
+	s.annots[0] = append(s.annots[0], txt)
+	s.fields = pdfgen.Array{txt}
+	return s
+}
+
+func (s *shapeDoc) sigDict() pdfgen.Ref {
+	return s.doc.Add(pdfgen.D("Type", pdfgen.Name("Sig"), "Filter", pdfgen.Name("Adobe.PPKLite"), "SubFilter", pdfgen.Name("adbe.pkcs7.detached"),
+		"ByteRange", pdfgen.A(0, 100, 300, 50), "Contents", pdfgen.HexString(make([]byte, 99)), "Name", pdfgen.String("verif")))
+}
+
+// widget returns a widget annotation dictionary on page (0-based) with further key/value pairs.
+func (s *shapeDoc) widget(page int, extra ...any) pdfgen.Dict {
+	d := pdfgen.D("Type", pdfgen.Name("Annot"), "Subtype", pdfgen.Name("Widget"), "Rect", pdfgen.Rect(50, 50, 150, 80), "P", s.pageRefs[page], "F", pdfgen.Int(4))
+	for i := 0; i+1 < len(extra); i += 2 {
+		d.Set(pdfgen.Name(extra[i].(string)), pdfgen.Obj(extra[i+1]))
+	}
+	return d
+}
+
+func (s *shapeDoc) finish(xrefStream bool) ([]byte, error) {
+	doc := s.doc
+	var kids pdfgen.Array
+	for i, r := range s.pageRefs {
+		d := s.pageDicts[i]
+		if len(s.annots[i]) > 0 {
+			d.Set("Annots", s.annots[i])
+		}
+		doc.Put(r, d)
+		kids = append(kids, r)
+	}
+	doc.Put(s.pagesRef, pdfgen.D("Type", pdfgen.Name("Pages"), "Kids", kids, "Count", pdfgen.Int(shapePages)))
+	doc.Put(s.catRef, pdfgen.D("Type", pdfgen.Name("Catalog"), "Pages", s.pagesRef,
+		"AcroForm", pdfgen.D("Fields", s.fields, "SigFlags", pdfgen.Int(3), "DA", pdfgen.String("/F1 10 Tf 0 g"), "DR", pdfgen.D("Font", pdfgen.D("F1", s.font)))))
+	doc.SetRoot(s.catRef)
+	opts := pdfgen.Options{Version: "1.7", BinaryComment: true}
+	if xrefStream {
+		opts.XRef = pdfgen.XRefStream
+		opts.ObjStm = true
+	}
+	out, err := pdfgen.Write(doc, opts)
+	if err != nil {
+		return nil, err
+	}
+	return out.Bytes, nil
+}
+
+func buildShape(kind string, xrefStream bool) ([]byte, error) {
+	s := newShapeDoc(kind)
+	doc, annots, widget, sigDict := s.doc, s.annots, s.widget, s.sigDict
+	fields := s.fields
 
 	switch kind {
 	case "merged":
@@ -675,27 +750,6 @@ func buildShape(kind string, xrefStream bool) ([]byte, error) {
 	default:
 		return nil, fmt.Errorf("unknown shape %q", kind)
 	}
-	var kids pdfgen.Array
-	for i, r := range pageRefs {
-		d := pageDicts[i]
-		if len(annots[i]) > 0 {
-			d.Set("Annots", annots[i])
-		}
-		doc.Put(r, d)
-		kids = append(kids, r)
-	}
-	doc.Put(pagesRef, pdfgen.D("Type", pdfgen.Name("Pages"), "Kids", kids, "Count", pdfgen.Int(nPages)))
-	doc.Put(catRef, pdfgen.D("Type", pdfgen.Name("Catalog"), "Pages", pagesRef,
-		"AcroForm", pdfgen.D("Fields", fields, "SigFlags", pdfgen.Int(3), "DA", pdfgen.String("/F1 10 Tf 0 g"), "DR", pdfgen.D("Font", pdfgen.D("F1", font)))))
-	doc.SetRoot(catRef)
-	opts := pdfgen.Options{Version: "1.7", BinaryComment: true}
-	if xrefStream {
-		opts.XRef = pdfgen.XRefStream
-		opts.ObjStm = true
-	}
-	out, err := pdfgen.Write(doc, opts)
-	if err != nil {
-		return nil, err
-	}
-	return out.Bytes, nil
+	s.fields = fields
+	return s.finish(xrefStream)
 }
